@@ -31,6 +31,9 @@ func evaluate(prop string, c *Case, v *merge.Verdict, ir *implResult) []finding 
 		return fs
 	}
 	implFail := ir.err != nil
+	if c.Family == "argsmarker" && prop != "C01" && prop != "C02" {
+		return nil // only the ownership verdicts are defined for a lone command-line marker
+	}
 	switch prop {
 	case "C01":
 		if v.Fail && !v.DontCare {
@@ -57,6 +60,18 @@ func evaluate(prop string, c *Case, v *merge.Verdict, ir *implResult) []finding 
 	case "C04":
 		if !v.DontCare {
 			fs = append(fs, checkC04(prop, c, v, ir)...)
+		}
+		// "what a plugin is shown agrees with what the runtime would obtain by applying the result combined
+		// so far": the views are compared with the model above; here the combined result, applied to the
+		// original by the generator, is compared with the model's state after the last plugin - which is
+		// what a further plugin would be shown (and is shown, in the chains whose last plugin sets nothing).
+		if len(fs) == 0 && c.Req.Kind == "create" && !v.Fail && !implFail && !v.DontCare {
+			for _, f := range checkC03(prop, c, v, ir) {
+				if strings.Contains(f.sig, "combined-vs-model") {
+					fs = append(fs, finding{strings.Replace(f.sig, "combined-vs-model", "applied-vs-shown", 1),
+						"applying the result combined so far does not give what the next plugin is shown: " + f.msg})
+				}
+			}
 		}
 	case "C05":
 		if v.Fail && v.FailKind == "self-update" && !implFail {
@@ -224,7 +239,21 @@ func checkC05(prop string, c *Case, v *merge.Verdict, ir *implResult) []finding 
 		} else if hasFields(last) {
 			got := map[merge.Item]int{}
 			items.ReadResources(last.GetLinux().GetResources(), got)
-			add("own-entry-not-placeholder", "no plugin changed the updated container but its entry carries %v", merge.SortedItems(got))
+			// A plugin that names the updated container in an update setting no field has not changed it;
+			// whether its entry is then the placeholder or the runtime-requested resources overlaid with
+			// nothing (= exactly what the runtime asked for) the statement leaves open: both are accepted,
+			// anything else is not.
+			namedOwn := false
+			for _, t := range st.UpdSeen {
+				namedOwn = namedOwn || t == c.Req.ID
+			}
+			if namedOwn {
+				if kinds, detail := diffKinds(st.Cont, got); len(kinds) > 0 {
+					add("own-entry-fields|"+strings.Join(kinds, "+"), "entry of the updated container (named by an update that sets nothing) is neither a placeholder nor the requested resources: %s", strings.Join(detail, "; "))
+				}
+			} else {
+				add("own-entry-not-placeholder", "no plugin changed the updated container but its entry carries %v", merge.SortedItems(got))
+			}
 		}
 	}
 	seen := map[string]bool{}
